@@ -17,8 +17,20 @@ type obsUnit struct {
 	y, h float64
 }
 
+// obsFrag is the fragment of a generated block (box, paragraph or fixed-height block) on a page.
+type obsFrag struct {
+	id             string
+	y              float64 // top of the border box (margins are zero)
+	bt, pt, pb, bb float64 // used vertical border widths and paddings
+	h              float64 // content height
+	first, last    int     // range of obsPage.units inside the fragment (last < first: none)
+}
+
+func (g obsFrag) bottom() float64 { return g.y + g.bt + g.pt + g.h + g.pb + g.bb }
+
 type obsPage struct {
 	units  []obsUnit
+	frags  []obsFrag
 	mboxes map[string]string // at-keyword -> text
 }
 
@@ -60,15 +72,29 @@ func observePage(p *bo.PageBox, leafIDs map[string]bool) obsPage {
 		if f.PseudoType != "" {
 			id = owner
 		}
+		fi := -1
+		if _, isBlock := b.(*bo.BlockBox); isBlock && f.PseudoType == "" && strings.HasPrefix(id, "u") {
+			fi = len(op.frags)
+			op.frags = append(op.frags, obsFrag{
+				id: id, y: float64(f.PositionY) + float64(f.MarginTop.V()),
+				bt: float64(f.BorderTopWidth.V()), pt: float64(f.PaddingTop.V()),
+				pb: float64(f.PaddingBottom.V()), bb: float64(f.BorderBottomWidth.V()),
+				h: float64(f.Height.V()), first: len(op.units),
+			})
+		}
 		if id != "" && leafIDs[id] && f.PseudoType == "" {
-			op.units = append(op.units, obsUnit{id: id, y: float64(f.PositionY), h: float64(f.Height.V())})
-			return
+			// the unit is the content box of the fixed-height block
+			op.units = append(op.units, obsUnit{id: id, y: float64(f.PositionY) + float64(f.MarginTop.V()) + float64(f.BorderTopWidth.V()) + float64(f.PaddingTop.V()), h: float64(f.Height.V())})
+		} else {
+			if id == "" {
+				id = owner
+			}
+			for _, c := range f.Children {
+				walk(c, id)
+			}
 		}
-		if id == "" {
-			id = owner
-		}
-		for _, c := range f.Children {
-			walk(c, id)
+		if fi >= 0 {
+			op.frags[fi].last = len(op.units) - 1
 		}
 	}
 	for _, c := range p.Children {
